@@ -39,6 +39,34 @@ impl IntoVal for Raw {
     }
 }
 
+impl IntoVal for Nz {
+    fn into_val(self) -> Val {
+        Val { id: self.0.get() }
+    }
+}
+impl IntoVal for Wide {
+    fn into_val(self) -> Val {
+        let id = self.id;
+        std::mem::forget(self);
+        Val { id }
+    }
+}
+
+/// move a stored error out of an aggregate (race_ok)
+pub trait TakeVal {
+    fn take_val(&mut self) -> Val;
+}
+impl TakeVal for Val {
+    fn take_val(&mut self) -> Val {
+        std::mem::replace(self, Val::list(Vec::new()))
+    }
+}
+impl TakeVal for Raw {
+    fn take_val(&mut self) -> Val {
+        Val { id: self.0 }
+    }
+}
+
 pub trait TupleOut {
     fn into_vec(self) -> Vec<Val>;
 }
@@ -49,18 +77,13 @@ impl TupleOut for () {
 }
 macro_rules! impl_tuple_out {
     ($($x:ident)+) => {
-        impl<T: IntoVal> TupleOut for ($(tuple_ty!($x),)+) {
+        impl<$($x: IntoVal),+> TupleOut for ($($x,)+) {
             #[allow(non_snake_case)]
             fn into_vec(self) -> Vec<Val> {
                 let ($($x,)+) = self;
                 vec![$($x.into_val(),)+]
             }
         }
-    };
-}
-macro_rules! tuple_ty {
-    ($x:ident) => {
-        T
     };
 }
 impl_tuple_out!(A);
@@ -110,6 +133,27 @@ macro_rules! tuple_match {
 macro_rules! nx {
     ($it:ident) => {
         $it.next().unwrap()
+    };
+}
+
+/// a tuple whose element types differ: element i is made by the (i % 4)-th
+/// constructor from the next leaf
+macro_rules! hetero_match {
+    ($n:expr, $it:ident, [$m0:expr, $m1:expr, $m2:expr, $m3:expr], |$t:ident| $body:expr) => {
+        match $n {
+            2 => { let $t = ($m0(nx!($it)), $m1(nx!($it))); $body }
+            3 => { let $t = ($m0(nx!($it)), $m1(nx!($it)), $m2(nx!($it))); $body }
+            4 => { let $t = ($m0(nx!($it)), $m1(nx!($it)), $m2(nx!($it)), $m3(nx!($it))); $body }
+            5 => { let $t = ($m0(nx!($it)), $m1(nx!($it)), $m2(nx!($it)), $m3(nx!($it)), $m0(nx!($it))); $body }
+            6 => { let $t = ($m0(nx!($it)), $m1(nx!($it)), $m2(nx!($it)), $m3(nx!($it)), $m0(nx!($it)), $m1(nx!($it))); $body }
+            7 => { let $t = ($m0(nx!($it)), $m1(nx!($it)), $m2(nx!($it)), $m3(nx!($it)), $m0(nx!($it)), $m1(nx!($it)), $m2(nx!($it))); $body }
+            8 => { let $t = ($m0(nx!($it)), $m1(nx!($it)), $m2(nx!($it)), $m3(nx!($it)), $m0(nx!($it)), $m1(nx!($it)), $m2(nx!($it)), $m3(nx!($it))); $body }
+            9 => { let $t = ($m0(nx!($it)), $m1(nx!($it)), $m2(nx!($it)), $m3(nx!($it)), $m0(nx!($it)), $m1(nx!($it)), $m2(nx!($it)), $m3(nx!($it)), $m0(nx!($it))); $body }
+            10 => { let $t = ($m0(nx!($it)), $m1(nx!($it)), $m2(nx!($it)), $m3(nx!($it)), $m0(nx!($it)), $m1(nx!($it)), $m2(nx!($it)), $m3(nx!($it)), $m0(nx!($it)), $m1(nx!($it))); $body }
+            11 => { let $t = ($m0(nx!($it)), $m1(nx!($it)), $m2(nx!($it)), $m3(nx!($it)), $m0(nx!($it)), $m1(nx!($it)), $m2(nx!($it)), $m3(nx!($it)), $m0(nx!($it)), $m1(nx!($it)), $m2(nx!($it))); $body }
+            12 => { let $t = ($m0(nx!($it)), $m1(nx!($it)), $m2(nx!($it)), $m3(nx!($it)), $m0(nx!($it)), $m1(nx!($it)), $m2(nx!($it)), $m3(nx!($it)), $m0(nx!($it)), $m1(nx!($it)), $m2(nx!($it)), $m3(nx!($it))); $body }
+            n => panic!("harness: unsupported heterogeneous tuple arity {}", n),
+        }
     };
 }
 
@@ -167,33 +211,34 @@ where
     Box::pin(async move { Val::list(f.await.into_vec()) })
 }
 
-fn fin_try_join<Fu, T>(f: Fu) -> BoxR
+fn fin_try_join<Fu, T, E>(f: Fu) -> BoxR
 where
-    Fu: Future<Output = Result<T, Val>> + 'static,
+    Fu: Future<Output = Result<T, E>> + 'static,
     T: TupleOut,
+    E: IntoVal,
 {
     Box::pin(async move {
         match f.await {
             Ok(t) => Ok(Val::list(t.into_vec())),
-            Err(e) => Err(e),
+            Err(e) => Err(e.into_val()),
         }
     })
 }
 
-fn take_all(s: &mut [Val]) -> Vec<Val> {
-    s.iter_mut()
-        .map(|v| std::mem::replace(v, Val::list(Vec::new())))
-        .collect()
+fn take_all<X: TakeVal>(s: &mut [X]) -> Vec<Val> {
+    s.iter_mut().map(|v| v.take_val()).collect()
 }
 
-fn fin_race_ok_arr<Fu, E, const N: usize>(f: Fu) -> BoxR
+fn fin_race_ok_arr<Fu, T, X, E, const N: usize>(f: Fu) -> BoxR
 where
-    Fu: Future<Output = Result<Val, E>> + 'static,
-    E: std::ops::DerefMut<Target = [Val; N]>,
+    Fu: Future<Output = Result<T, E>> + 'static,
+    T: IntoVal,
+    X: TakeVal,
+    E: std::ops::DerefMut<Target = [X; N]>,
 {
     Box::pin(async move {
         match f.await {
-            Ok(v) => Ok(v),
+            Ok(v) => Ok(v.into_val()),
             Err(mut agg) => {
                 let v = take_all(&mut agg[..]);
                 Err(Val::list(v))
@@ -203,16 +248,18 @@ where
 }
 
 #[cfg(feature = "has-alloc")]
-fn fin_race_ok_vec<Fu, E>(f: Fu) -> BoxR
+fn fin_race_ok_vec<Fu, T, X, E>(f: Fu) -> BoxR
 where
-    Fu: Future<Output = Result<Val, E>> + 'static,
-    E: std::ops::DerefMut<Target = Vec<Val>>,
+    Fu: Future<Output = Result<T, E>> + 'static,
+    T: IntoVal,
+    X: TakeVal,
+    E: std::ops::DerefMut<Target = Vec<X>>,
 {
     Box::pin(async move {
         match f.await {
-            Ok(v) => Ok(v),
+            Ok(v) => Ok(v.into_val()),
             Err(mut agg) => {
-                let v = std::mem::take(&mut *agg);
+                let v = take_all(&mut agg[..]);
                 Err(Val::list(v))
             }
         }
@@ -427,10 +474,11 @@ where
     }
 }
 
-fn try_join_over<K, T>(v: Vec<K>, container: Container, n: usize) -> BoxR
+fn try_join_over<K, T, E>(v: Vec<K>, container: Container, n: usize) -> BoxR
 where
-    K: Future<Output = Result<T, Val>> + 'static,
+    K: Future<Output = Result<T, E>> + 'static,
     T: IntoVal + 'static,
+    E: IntoVal + 'static,
 {
     use fcf::TryJoin as _;
     match container {
@@ -454,9 +502,11 @@ where
     }
 }
 
-fn race_ok_over<K>(v: Vec<K>, container: Container, n: usize) -> BoxR
+fn race_ok_over<K, T, X>(v: Vec<K>, container: Container, n: usize) -> BoxR
 where
-    K: Future<Output = Result<Val, Val>> + 'static,
+    K: Future<Output = Result<T, X>> + 'static,
+    T: IntoVal + 'static,
+    X: TakeVal + std::fmt::Debug + 'static,
 {
     use fcf::RaceOk as _;
     match container {
@@ -550,6 +600,10 @@ pub fn build_f(parent: Option<NodeId>, idx: usize, spec: &CombSpec) -> (NodeId, 
         Family::Join => match spec.variant {
             1 => join_over(kids_plain(id, spec, Flavor::F, PlainF), spec.container, n),
             2 => join_over(kids_raw(id, spec, Flavor::F, RawF), spec.container, n),
+            4 => {
+                let mut it = kids_raw(id, spec, Flavor::F, |m| m).into_iter();
+                hetero_match!(n, it, [LeafF, NzF, RawF, WideF], |t| fin_join(t.join()))
+            }
             _ => join_over(kids_f(id, spec), spec.container, n),
         },
         Family::Race => match spec.variant {
@@ -574,10 +628,17 @@ pub fn build_r(parent: Option<NodeId>, idx: usize, spec: &CombSpec) -> (NodeId, 
         Family::TryJoin => match spec.variant {
             1 => try_join_over(kids_plain(id, spec, Flavor::R, PlainR), spec.container, n),
             2 => try_join_over(kids_raw(id, spec, Flavor::R, RawR), spec.container, n),
+            3 => try_join_over(kids_raw(id, spec, Flavor::R, ErrRawR), spec.container, n),
+            4 => {
+                let mut it = kids_raw(id, spec, Flavor::R, |m| m).into_iter();
+                hetero_match!(n, it, [LeafR, NzR, RawR, WideR], |t| fin_try_join(t.try_join()))
+            }
             _ => try_join_over(kids_r(id, spec), spec.container, n),
         },
         Family::RaceOk => match spec.variant {
             1 => race_ok_over(kids_plain(id, spec, Flavor::R, PlainR), spec.container, n),
+            2 => race_ok_over(kids_raw(id, spec, Flavor::R, RawR), spec.container, n),
+            3 => race_ok_over(kids_raw(id, spec, Flavor::R, ErrRawR), spec.container, n),
             _ => race_ok_over(kids_r(id, spec), spec.container, n),
         },
         f => panic!("harness: {:?} is not a future of Result", f),
@@ -597,6 +658,10 @@ pub fn build_s(parent: Option<NodeId>, idx: usize, spec: &CombSpec) -> (NodeId, 
         Family::Zip => match spec.variant {
             1 => zip_over(kids_plain(id, spec, Flavor::S, PlainS), spec.container, n),
             2 => zip_over(kids_raw(id, spec, Flavor::S, RawS), spec.container, n),
+            4 => {
+                let mut it = kids_raw(id, spec, Flavor::S, |m| m).into_iter();
+                hetero_match!(n, it, [LeafS, NzS, RawS, WideS], |t| map_s(t.zip(), |x| Val::list(x.into_vec())))
+            }
             _ => zip_over(kids_s(id, spec), spec.container, n),
         },
         Family::Chain => match spec.variant {
